@@ -110,7 +110,7 @@ impl<'a> Gen3<'a> {
         if !self.room() {
             return None;
         }
-        let trader = self.r.below(6) as u32;
+        let trader = if self.r.chance(0.05) { u32::MAX - self.r.below(3) as u32 } else { self.r.below(6) as u32 };
         self.ops.push(EnvOp::New { a, bid, vol, trader, price });
         match self.ms[a].create(bid, vol, trader, price) {
             Ok(id) => {
@@ -351,7 +351,14 @@ pub fn generate(prop: &str, seed: u64) -> W3Scn {
     let deep = p.asym && r.chance(0.5);
     let alph: Vec<Vec<u32>> = ticks.iter().map(|t| make_alphabet(&mut r, *t, if deep { 3 } else if narrow { 0 } else { 1 })).collect();
     let vol_kind = if narrow { r.range(0, 1) as u8 } else { r.range(0, 2) as u8 };
-    let step_size = if p.overflow { r.range(1, 4) } else { *r.pick(&[16u64, 64, 1000, 1_000_000, 1_000_000_000]) };
+    // small step sizes make "batch size == step size" (the upper bound the valid histories allow) a common case
+    let step_size = if p.overflow {
+        r.range(1, 4)
+    } else if r.chance(0.3) {
+        r.range(1, 12)
+    } else {
+        *r.pick(&[16u64, 64, 1000, 1_000_000, 1_000_000_000])
+    };
     let t0 = match r.below(4) {
         0 => 0,
         1 => r.below(1000),
